@@ -117,9 +117,9 @@ DispatchAll(R, q, msgs) == IF msgs = <<>> THEN R ELSE DispatchAll(Dispatch(R, q,
 Call(p, k, ws) ==
     /\ LET c == ncall + 1
            R0 == [Pack(ws, FALSE) EXCEPT !.cst = Append(@, "pending"), !.res = Append(@, <<"", 0>>),
-                                  !.nfire = Append(@, 0), !.rst = Append(@, "none")]
-           R == IF ts[p] = "lost" THEN FireWith(R0, c, why[p], p)       \* fails immediately
-                ELSE Emit(R0, p, "ask", c) IN
+                                  !.nfire = Append(@, 0), !.rst = Append(@, "none")] IN
+       \E R \in {IF ts[p] = "lost" THEN FireWith(R0, c, why[p], p)       \* fails immediately
+                 ELSE Emit(R0, p, "ask", c)} :                           \* (\E over a singleton: evaluated once)
        /\ Unpack(R)
        /\ last' = [e |-> "call", obs |-> R.obs]
     /\ ncall' = ncall + 1
@@ -141,8 +141,8 @@ Deliver(p, n, ws, qc) ==
            b == off[p] + n
            k == NDone(pipe[p], b)
            done == SubSeq(pipe[p], 1, k)
-           R0 == [Pack(ws, qc) EXCEPT !.pipe[p] = SubSeq(@, k + 1, Len(@))]
-           R == DispatchAll(R0, q, done) IN
+           R0 == [Pack(ws, qc) EXCEPT !.pipe[p] = SubSeq(@, k + 1, Len(@))] IN
+       \E R \in {DispatchAll(R0, q, done)} :
        /\ Unpack(R)
        /\ off' = [off EXCEPT ![p] = b - SumSz(done)]
        /\ last' = [e |-> "deliver", obs |-> R.obs]
@@ -151,7 +151,7 @@ Deliver(p, n, ws, qc) ==
 (* the scheduler fires the Deferred a Later responder returned for call c *)
 Fire(c, ws, qc) ==
     /\ c \in 1..ncall /\ rst[c] = "running" /\ IsLater(kind[c])
-    /\ LET R == Respond(Pack(ws, qc), Other(caller[c]), c) IN
+    /\ \E R \in {Respond(Pack(ws, qc), Other(caller[c]), c)} :
        /\ Unpack(R)
        /\ last' = [e |-> "fire", obs |-> R.obs]
     /\ UNCHANGED <<cfg, ncall, caller, kind, off, net, why>>
